@@ -690,23 +690,66 @@ func universeText() *rapid.Generator[string] {
 func graphText() *rapid.Generator[string] {
 	return rapid.Custom(func(t *rapid.T) string {
 		var sb strings.Builder
-		sb.WriteString(rapid.SampledFrom([]string{"", "1: ", "ERROR: boom\n"}).Draw(t, "pre") + "root 1.0.0\n")
+		// The first row is usually the root; sometimes an error row, a label
+		// reference or an indented row (rows that create no node).
+		// a sixth of the texts: a wide, well-formed graph of 12-20 distinct nodes
+		// with copies of the root and of other nodes among them (sorting behaves
+		// differently beyond a dozen elements)
+		if rapid.IntRange(0, 5).Draw(t, "wide") == 0 {
+			sb.WriteString("root 1.0.0\n")
+			for i, n := 0, rapid.IntRange(12, 20).Draw(t, "width"); i < n; i++ {
+				d := 1
+				if i > 0 && rapid.IntRange(0, 3).Draw(t, "deeper") == 0 {
+					d = 2
+				}
+				switch rapid.IntRange(0, 7).Draw(t, "widekind") {
+				case 0:
+					sb.WriteString(strings.Repeat("\t", d) + "root@^1.0.0 1.0.0\n")
+				case 1:
+					sb.WriteString(strings.Repeat("\t", d) + "n0@* 1.0.0\n")
+				default:
+					sb.WriteString(fmt.Sprintf("%sn%d@^1.0.0 1.%d.0\n", strings.Repeat("\t", d), i, i))
+				}
+			}
+			return sb.String()
+		}
+		pre := rapid.SampledFrom([]string{"", "", "1: ", "ERROR: boom\n"}).Draw(t, "pre")
+		sb.WriteString(pre)
+		defined := []int{}
+		if pre == "1: " {
+			defined = append(defined, 1)
+		}
+		sb.WriteString(rapid.SampledFrom([]string{"root 1.0.0\n", "root 1.0.0\n", "root 1.0.0\n", "a@1 ERROR: x\n", "$1@*\n", "\troot 1.0.0\n", "root@^1 1.0.0\n"}).Draw(t, "first"))
 		depth := 0
 		label := 1
-		for i, n := 0, rapid.IntRange(0, 8).Draw(t, "nlines"); i < n; i++ {
+		// up to 20 rows: Canon sorts with an unstable algorithm beyond 12 nodes
+		maxLines := rapid.SampledFrom([]int{8, 8, 8, 20}).Draw(t, "maxlines")
+		for i, n := 0, rapid.IntRange(0, maxLines).Draw(t, "nlines"); i < n; i++ {
 			d := rapid.IntRange(1, depth+1).Draw(t, "depth")
 			depth = d
 			sb.WriteString(strings.Repeat("\t", d))
-			switch rapid.IntRange(0, 5).Draw(t, "kind") {
+			kind := rapid.IntRange(0, 7).Draw(t, "kind")
+			if kind == 0 && (len(defined) == 0 || rapid.IntRange(0, 9).Draw(t, "badref") == 0) {
+				if len(defined) > 0 || rapid.IntRange(0, 4).Draw(t, "undefinedref") == 0 {
+					sb.WriteString(fmt.Sprintf("$%d@*\n", label+5)) // an undefined label: rejected
+					continue
+				}
+				kind = 4
+			}
+			switch kind {
 			case 0:
-				sb.WriteString(fmt.Sprintf("$%d@*\n", rapid.IntRange(1, label).Draw(t, "ref")))
+				sb.WriteString(fmt.Sprintf("$%d@*\n", rapid.SampledFrom(defined).Draw(t, "ref")))
 			case 1:
 				sb.WriteString("x@^1 ERROR: not found\n")
 			case 2:
 				label++
-				sb.WriteString(fmt.Sprintf("%d: Dev|a@^1 1.0.0\n", label))
+				defined = append(defined, label)
+				sb.WriteString(fmt.Sprintf("%d: Dev|%s@^1 %s\n", label, rapid.SampledFrom([]string{"a", "f", "g"}).Draw(t, "ln"), rapid.SampledFrom([]string{"1.0.0", "1.1.0", "3.0.0"}).Draw(t, "lv")))
+			case 3:
+				// a copy of the root, or of another node
+				sb.WriteString(rapid.SampledFrom([]string{"root@* 1.0.0\n", "root@^1 1.0.0\n", "a@^1 1.0.0\n"}).Draw(t, "dup"))
 			default:
-				sb.WriteString(rapid.SampledFrom([]string{"", "Opt|", "Scope peer|", "KnownAs \"x y\"|"}).Draw(t, "dt") + rapid.SampledFrom([]string{"a", "b", "@s/c"}).Draw(t, "n") + "@" + rapid.SampledFrom([]string{"*", "^1", "1 - 2"}).Draw(t, "r") + " " + rapid.SampledFrom([]string{"1.0.0", "2.0.0"}).Draw(t, "v") + "\n")
+				sb.WriteString(rapid.SampledFrom([]string{"", "Opt|", "Scope peer|", "KnownAs \"x y\"|"}).Draw(t, "dt") + rapid.SampledFrom([]string{"a", "b", "@s/c", "d", "e", "h", "i", "j", "k"}).Draw(t, "n") + "@" + rapid.SampledFrom([]string{"*", "^1", "1 - 2"}).Draw(t, "r") + " " + rapid.SampledFrom([]string{"1.0.0", "2.0.0", "1.5.0"}).Draw(t, "v") + "\n")
 			}
 		}
 		return sb.String()
